@@ -144,6 +144,10 @@ impl AEADBodyCodec {
                     self.state = DecodeState::Body(padding, length)
                 }
                 DecodeState::Body(padding, length) => {
+                    if length < padding + self.auth.cipher.tag_size() {
+                        // an unauthenticated (plain or masked) size field may say anything
+                        return Err(aead::Error);
+                    }
                     if src.remaining() < length {
                         break;
                     }
